@@ -1,13 +1,13 @@
 """C19 Tree navigation API agrees with a set-based model of the tree."""
 from .. import model, sweep
-from ..runner import Result
-from ..bridge import T, build, quiet
+from ..runner import Result, scratch
+from ..bridge import T, build, quiet, build_via_export, perturb, extract
 
 ID = 'C19'
 LEVEL = 'exploration'
 TECHNIQUE = 'bounded exhaustive enumeration of tree shapes x child-list orders, set-model oracle'
 
-ORDERS = [None, 'rev', 1]
+ORDERS = [None, 'rev', 1, 'export']
 
 
 def plan(tier, seed):
@@ -107,17 +107,37 @@ def P(x):
 
 
 def check_tree(mt_json, order):
+    """order: None | 'rev' | int rotation | 'export' (tree produced by the real export reader)."""
     mt = model.MT.from_json(mt_json)
-    ref = Ref(mt.root)
     out = []
+    case = {'mt': mt_json, 'order': order}
+    try:
+        if order == 'export':
+            t = build_via_export(mt, scratch())
+        else:
+            t = build(mt, child_order=order)
+        compare_live(t, mt, case, out, 'fresh tree')
+        # non-initial state: the same objects after an in-place change (answers must follow the tree,
+        # not remember what was computed before)
+        for mode in ('last', 'first'):
+            if not out and perturb(t, mode):
+                mt2 = extract(t)
+                compare_live(t, mt2, case, out, 'after re-attaching the %s token in place' % mode)
+    except Exception as e:  # library crashed on a well-formed tree
+        out.append({'kind': 'exception', 'where': 'trees.*', 'case': case,
+                    'detail': '%s: %s on %s' % (type(e).__name__, e, model.mt_str(mt.root)),
+                    'what': 'navigation function raised on a well-formed tree'})
+    return out
+
+
+def compare_live(t, mt, case, out, phase):
+    ref = Ref(mt.root)
 
     def bad(where, exp, got):
-        out.append({'kind': 'navigation-mismatch', 'where': where,
-                    'case': {'mt': mt_json, 'order': order},
-                    'detail': '%s: expected %r, got %r on %s (child order %r)'
-                              % (where, exp, got, model.mt_str(mt.root), order),
+        out.append({'kind': 'navigation-mismatch', 'where': where, 'case': case,
+                    'detail': '%s: expected %r, got %r on %s (child order %r, %s)'
+                              % (where, exp, got, model.mt_str(mt.root), case['order'], phase),
                     'what': where + ' disagrees with the set model'})
-    t = build(mt, child_order=order)
     tag_paths(t, ref)
     by_path = {}
     stack = [t]
@@ -127,82 +147,84 @@ def check_tree(mt_json, order):
         stack.extend(x.children)
     if set(by_path) != set(ref.node):
         raise AssertionError('harness: path tagging broken')
-    try:
-        for path, x in by_path.items():
-            if x.children:
-                got = [P(c) for c in T.children(x)]
-                if got != ref.kids[path]:
-                    bad('children', ref.kids[path], got)
-            if T.has_children(x) != bool(ref.kids[path]):
-                bad('has_children', bool(ref.kids[path]), T.has_children(x))
-            got = [l.data['num'] for l in T.terminals(x)]
-            if got != ref.leaves(path):
-                bad('terminals', ref.leaves(path), got)
-            got = sorted(l.data['num'] for l in T.unordered_terminals(x))
-            if got != ref.leaves(path):
-                bad('unordered_terminals', ref.leaves(path), got)
-            got = [[l.data['num'] for l in b] for b in T.terminal_blocks(x)]
-            exp = model.blocks_of(ref.leaves(path))
+    for path, x in by_path.items():
+        if x.children:
+            got = [P(c) for c in T.children(x)]
+            if got != ref.kids[path]:
+                bad('children', ref.kids[path], got)
+        if T.has_children(x) != bool(ref.kids[path]):
+            bad('has_children', bool(ref.kids[path]), T.has_children(x))
+        got = [l.data['num'] for l in T.terminals(x)]
+        if got != ref.leaves(path):
+            bad('terminals', ref.leaves(path), got)
+        got = sorted(l.data['num'] for l in T.unordered_terminals(x))
+        if got != ref.leaves(path):
+            bad('unordered_terminals', ref.leaves(path), got)
+        got = [[l.data['num'] for l in b] for b in T.terminal_blocks(x)]
+        exp = model.blocks_of(ref.leaves(path))
+        if got != exp:
+            bad('terminal_blocks', exp, got)
+        got = P(T.right_sibling(x))
+        if got != ref.sibling(path, +1):
+            bad('right_sibling', ref.sibling(path, +1), got)
+        got = P(T.left_sibling(x))
+        if got != ref.sibling(path, -1):
+            bad('left_sibling', ref.sibling(path, -1), got)
+        got = [P(d) for d in T.dominance(x)]
+        if got != ref.dominance(path):
+            bad('dominance', ref.dominance(path), got)
+        # traversals from every node
+        sub_pre = [p for p in ref.pre if p[:len(path)] == path]
+        sub_post = [p for p in ref.post if p[:len(path)] == path]
+        got = [P(d) for d in T.preorder(x)]
+        if got != sub_pre:
+            bad('preorder', sub_pre, got)
+        got = [P(d) for d in T.postorder(x)]
+        if got != sub_post:
+            bad('postorder', sub_post, got)
+    paths = sorted(by_path)
+    for a in paths:
+        for b in paths:
+            got = P(T.lca(by_path[a], by_path[b]))
+            exp = ref.lca(a, b)
             if got != exp:
-                bad('terminal_blocks', exp, got)
-            got = P(T.right_sibling(x))
-            if got != ref.sibling(path, +1):
-                bad('right_sibling', ref.sibling(path, +1), got)
-            got = P(T.left_sibling(x))
-            if got != ref.sibling(path, -1):
-                bad('left_sibling', ref.sibling(path, -1), got)
-            got = [P(d) for d in T.dominance(x)]
-            if got != ref.dominance(path):
-                bad('dominance', ref.dominance(path), got)
-            # traversals from every node
-            sub_pre = [p for p in ref.pre if p[:len(path)] == path]
-            sub_post = [p for p in ref.post if p[:len(path)] == path]
-            got = [P(d) for d in T.preorder(x)]
-            if got != sub_pre:
-                bad('preorder', sub_pre, got)
-            got = [P(d) for d in T.postorder(x)]
-            if got != sub_post:
-                bad('postorder', sub_post, got)
-        paths = sorted(by_path)
-        for a in paths:
-            for b in paths:
-                got = P(T.lca(by_path[a], by_path[b]))
-                exp = ref.lca(a, b)
-                if got != exp:
-                    bad('lca', exp, got)
-        # levels
-        lv, rev = T.levels(t)
-        exp_rev = {p: ref.level(p) for p in ref.node if ref.kids[p]}
-        got_rev = {P(x): l for x, l in rev.items()}
-        if got_rev != exp_rev:
-            bad('levels.reverse', exp_rev, got_rev)
-        got_lv = {l: sorted(P(x) for x in xs) for l, xs in lv.items()}
-        exp_lv = {}
-        for p, l in exp_rev.items():
-            exp_lv.setdefault(l, []).append(p)
-        exp_lv = {l: sorted(ps) for l, ps in exp_lv.items()}
-        if got_lv != exp_lv:
-            bad('levels', exp_lv, got_lv)
-        # export numbering (mutates num of constituents only)
-        from trees import treeoutput
-        treeoutput.compute_export_numbering(t)
-        cons = [p for p in ref.node if ref.kids[p] and p != ()]
-        cons.sort(key=lambda p: (ref.level(p), ref.leaves(p)[0]))
-        exp_num = {p: 500 + i for i, p in enumerate(cons)}
-        exp_num[()] = 0
-        got_num = {p: by_path[p].data.get('num') for p in exp_num}
-        if got_num != exp_num:
-            bad('compute_export_numbering', exp_num, got_num)
-        # tokens keep their numbers
-        for p in ref.node:
-            if not ref.kids[p] and by_path[p].data['num'] != ref.node[p]:
-                bad('compute_export_numbering.tokens', ref.node[p], by_path[p].data['num'])
-    except Exception as e:  # library crashed on a well-formed tree
-        out.append({'kind': 'exception', 'where': 'trees.*',
-                    'case': {'mt': mt_json, 'order': order},
-                    'detail': '%s: %s on %s' % (type(e).__name__, e, model.mt_str(mt.root)),
-                    'what': 'navigation function raised on a well-formed tree'})
-    return out
+                bad('lca', exp, got)
+    # levels
+    lv, rev = T.levels(t)
+    exp_rev = {p: ref.level(p) for p in ref.node if ref.kids[p]}
+    got_rev = {P(x): l for x, l in rev.items()}
+    if got_rev != exp_rev:
+        bad('levels.reverse', exp_rev, got_rev)
+    got_lv = {l: sorted(P(x) for x in xs) for l, xs in lv.items()}
+    exp_lv = {}
+    for p, l in exp_rev.items():
+        exp_lv.setdefault(l, []).append(p)
+    exp_lv = {l: sorted(ps) for l, ps in exp_lv.items()}
+    if got_lv != exp_lv:
+        bad('levels', exp_lv, got_lv)
+    # export numbering (mutates num of constituents only)
+    from trees import treeoutput
+    treeoutput.compute_export_numbering(t)
+    cons = [p for p in ref.node if ref.kids[p] and p != ()]
+    cons.sort(key=lambda p: (ref.level(p), ref.leaves(p)[0]))
+    exp_num = {p: 500 + i for i, p in enumerate(cons)}
+    exp_num[()] = 0
+    got_num = {p: by_path[p].data.get('num') for p in exp_num}
+    if got_num != exp_num:
+        bad('compute_export_numbering', exp_num, got_num)
+    # tokens keep their numbers
+    for p in ref.node:
+        if not ref.kids[p] and by_path[p].data['num'] != ref.node[p]:
+            bad('compute_export_numbering.tokens', ref.node[p], by_path[p].data['num'])
+    # a writer pass in between (writers use the navigation API and may leave marks on the nodes)
+    import io as _io
+    import copy as _copy
+    treeoutput.export(t, _io.StringIO())
+    for path, x in by_path.items():
+        if x.children:
+            got = [P(c) for c in T.children(x)]
+            if got != ref.kids[path]:
+                bad('children after an export writer pass', ref.kids[path], got)
 
 
 def check_case(case):
